@@ -223,7 +223,24 @@ def rnd_expr(rng, avail, missing_ok):
                 if x[0] == 'c' and F(x[1]) == 0:
                     x[1] = '2'
         return [op, a, b]
-    return node(rng.choice([0, 1, 1, 2, 2]))
+    for _ in range(50):
+        e = node(rng.choice([0, 1, 1, 2, 2]))
+        if not e_cancels(e):
+            return e
+        pool = list(avail)
+        rng.shuffle(pool)
+    return ['c', '1']
+
+
+def e_cancels(e):
+    """a product with a variable-free factor of value 0: sympy drops the other factor's variables"""
+    if e[0] in ('c', 'v'):
+        return False
+    if e[0] == '*':
+        for x in (e[1], e[2]):
+            if not e_vars(x) and e_eval(x, {}) == 0:
+                return True
+    return e_cancels(e[1]) or e_cancels(e[2])
 
 
 def rnd_root(rng):
